@@ -478,10 +478,7 @@ Proof.
   - destruct (handler_can_accept x) eqn:H; [|Jt]. cbn [fst]. apply ACC. reflexivity.
   - destruct (d_block x); [Jt|]. destruct (aget (d_group x) (f_groups w)); [apply IH|Jt].
   - destruct (negb (operational x && negb (d_block x))); [Jt|apply TL].
-  - destruct (rev (item_gpath it)) as [|gp rest]; [apply RJ_fail|].
-    match goal with |- context[fold_left ?F ?l (w, false)] => pose proof (TL it l w false) as T; destruct (fold_left F l (w, false)) as [w1 ok] end.
-    cbn [fst] in T. destruct ok; cbn [fst]; [|exact T].
-    eapply RJ_trans; [exact T|]. apply RJ_one, tj_everywhere.
+  - destruct (rev (item_gpath it)) as [|gp rest]; [apply RJ_fail|apply TL].
 Qed.
 
 Lemma RJ_try_downstream fuel w d it : RJ w (fst (try_downstream fuel nw w d it)).
